@@ -4,6 +4,14 @@ CHECKS = [
   "text": "every list of <=4 (quick) / <=5 (thorough) name=value pairs over a 15-pair alphabet built to collide (duplicates, prefixes, names with characters sorting before '=', invalid pairs) is compared with a Go map model on Get and Each; the space is enumerated completely",
   "note": "names probed never contain '='; case-insensitive (Windows) mode is not exercised",
   "technique": "bounded exhaustive enumeration of inputs against a reference map model"},
+ {"id": "C17", "level": "exploration",
+  "text": "every pattern up to the stated length over a 20-symbol metacharacter alphabet is translated by Regexp in the anchored modes the code uses, the result must compile, and its match set over ~1900 subjects plus pattern-derived subjects must equal bash 5.2's `case` match set (extglob/nocasematch as per mode); unanchored and Shortest modes are checked against the anchored language; !() goes through internal.ExtendedPatternMatcher",
+  "note": "bash 5.2.15 (C.utf8) is the oracle; five narrow families where bash itself is erratic or locale-dependent are recorded as class findings in known_findings.txt; Filenames-mode semantics are decided in C19 via real globbing",
+  "technique": "bounded exhaustive enumeration of (pattern, mode) with per-pattern exhaustive subject matching against bash as reference"},
+ {"id": "C18", "level": "exploration",
+  "text": "every string up to the stated length over a 19-symbol alphabet is used as s and as p; the language of Regexp(QuoteMeta(s)) and of Regexp(p) when HasMeta(p) is false is decided exactly by parsing the produced expression (must be ^literal$) and cross-checked by matching",
+  "note": "regexp/syntax is trusted to parse the produced expression; ExtendedOperators mode is outside QuoteMeta's documented contract",
+  "technique": "bounded exhaustive enumeration of inputs with exact language decision on the produced regexp"},
 ]
 claimed = {c["id"] for c in CHECKS}
 NOT_APPLICABLE = [{"property_id": i, "reason": "check not built yet (work in progress, see DESIGN.md §9)"} for i in ALL if i not in claimed]
